@@ -1,13 +1,17 @@
-(* Model of tonic-types/src/richer_error (C20): the ten standard error detail messages, their
-   conversion to and from `prost_types::Any`, `StatusExt` / `RpcStatusExt`.
+(* Model of tonic-types/src/richer_error (C20): the ten standard error detail messages, the builder
+   methods of ErrorDetails, their conversion to and from `prost_types::Any`, `StatusExt` /
+   `RpcStatusExt`.
 
    Layer A (Section LayerA): the control flow of richer_error/mod.rs over abstract payload
-   codecs.  Layer B (after the section): the codecs themselves, written with the generic wire
-   model of Model/ProtoWire.v and the field tags regenerated from the `#[prost(..)]`
-   attributes (Gen/RichErrorTables.v), and the instantiation of layer A with them.
+   codecs.  Layer B (after the section): the codecs themselves - the table-driven prost codec of
+   Model/ProtoWire.v ([enc_g] / [dec_g]) applied to the tables of (field name, tag, kind) that rs2v
+   regenerates from the `#[prost(..)]` attributes (Gen/RichErrorTables.v), plus the field-by-field
+   struct <-> message conversions of std_messages/*.rs - and the instantiation of layer A with them.
    No proofs in this file. *)
 From Verif Require Import Lib.Bytes Lib.Obs Lib.Utf8 Lib.HeaderMap.
 From Verif Require Import Gen.StatusTables Gen.RichErrorTables Model.Status Model.ProtoWire.
+From Coq Require Import String.
+Close Scope string_scope.
 Open Scope N_scope.
 
 Definition str : Type := list N.           (* a Rust String: its UTF-8 bytes *)
@@ -107,6 +111,73 @@ Definition retry_info_new (d : option duration) : retry_info :=
                | None => None
                end).
 
+(* ---- error_details/mod.rs: building an ErrorDetails ------------------------------------------ *)
+(* the `set_*` methods (`self.f = Some(F::new(..))`) and the `add_*` methods (push onto the list of
+   the detail, or `Some(F::with_violation(..))` when it is not set yet); `ErrorDetails::with_*(..)`
+   is `{ f: Some(..), ..ErrorDetails::new() }`: the same operation applied to `new()` *)
+Inductive bop : Type :=
+| BSetRetryInfo (delay : option duration)
+| BSetDebugInfo (stack : list str) (detail : str)
+| BSetQuotaFailure (vs : list quota_violation)
+| BAddQuotaFailureViolation (subject description : str)
+| BSetErrorInfo (reason domain : str) (md : list (str * str))
+| BSetPreconditionFailure (vs : list precondition_violation)
+| BAddPreconditionFailureViolation (ty subject description : str)
+| BSetBadRequest (vs : list field_violation)
+| BAddBadRequestViolation (field description : str)
+| BSetRequestInfo (request_id serving_data : str)
+| BSetResourceInfo (resource_type resource_name owner description : str)
+| BSetHelp (links : list help_link)
+| BAddHelpLink (description url : str)
+| BSetLocalizedMessage (locale message : str).
+
+Definition apply_bop (ed : error_details) (op : bop) : error_details :=
+  match ed with
+  | mkED a b c e f g h i j k =>
+      match op with
+      | BSetRetryInfo d => mkED (Some (retry_info_new d)) b c e f g h i j k
+      | BSetDebugInfo st dt => mkED a (Some (mkDebugInfo st dt)) c e f g h i j k
+      | BSetQuotaFailure vs => mkED a b (Some (mkQuotaFailure vs)) e f g h i j k
+      | BAddQuotaFailureViolation s d =>
+          mkED a b (Some match c with
+                         | Some q => mkQuotaFailure (qf_violations q ++ [mkQuotaViolation s d])   (* add_violation *)
+                         | None => mkQuotaFailure [mkQuotaViolation s d]                          (* with_violation *)
+                         end) e f g h i j k
+      | BSetErrorInfo r d md => mkED a b c (Some (mkErrorInfo r d md)) f g h i j k
+      | BSetPreconditionFailure vs => mkED a b c e (Some (mkPreconditionFailure vs)) g h i j k
+      | BAddPreconditionFailureViolation t s d =>
+          mkED a b c e (Some match f with
+                             | Some q => mkPreconditionFailure (pf_violations q ++ [mkPreconditionViolation t s d])
+                             | None => mkPreconditionFailure [mkPreconditionViolation t s d]
+                             end) g h i j k
+      | BSetBadRequest vs => mkED a b c e f (Some (mkBadRequest vs)) h i j k
+      | BAddBadRequestViolation fl d =>
+          mkED a b c e f (Some match g with
+                               | Some q => mkBadRequest (br_field_violations q ++ [mkFieldViolation fl d])
+                               | None => mkBadRequest [mkFieldViolation fl d]
+                               end) h i j k
+      | BSetRequestInfo x y => mkED a b c e f g (Some (mkRequestInfo x y)) i j k
+      | BSetResourceInfo x y z w => mkED a b c e f g h (Some (mkResourceInfo x y z w)) j k
+      | BSetHelp ls => mkED a b c e f g h i (Some (mkHelp ls)) k
+      | BAddHelpLink d u =>
+          mkED a b c e f g h i (Some match j with
+                                     | Some q => mkHelp (h_links q ++ [mkHelpLink d u])
+                                     | None => mkHelp [mkHelpLink d u]
+                                     end) k
+      | BSetLocalizedMessage l m => mkED a b c e f g h i j (Some (mkLocalizedMessage l m))
+      end
+  end.
+(* `ErrorDetails::new()` followed by the operations (the first of them possibly as `with_*`) *)
+Definition ed_build (ops : list bop) : error_details := fold_left apply_bop ops ed_empty.
+
+(* has_quota_failure_violations, has_precondition_failure_violations, has_bad_request_violations, has_help_links *)
+Definition nonempty {A} (l : list A) : bool := match l with [] => false | _ :: _ => true end.
+Definition ed_has (ed : error_details) : list bool :=
+  [match ed_quota_failure ed with Some q => nonempty (qf_violations q) | None => false end;
+   match ed_precondition_failure ed with Some q => nonempty (pf_violations q) | None => false end;
+   match ed_bad_request ed with Some q => nonempty (br_field_violations q) | None => false end;
+   match ed_help ed with Some q => nonempty (h_links q) | None => false end].
+
 (* ============================================================================================ *)
 Section LayerA.
   (* IntoAny: `pb::X::from(x).encode_to_vec()`, FromAnyRef: `pb::X::decode(&any.value)?.into()` *)
@@ -129,24 +200,46 @@ Section LayerA.
   Definition status_bytes (code : N) (message : str) (ds : list error_detail) : res (list N) :=
     bind (map_res into_any ds) (fun conv => Ok (enc_status (mkPbStatus (Z.of_N code) message conv))).
 
+  Definition with_error_details_vec_and_metadata (code : N) (message : str) (ds : list error_detail) (md : hm)
+    : res status :=
+    bind (map_res into_any ds) (fun conv =>
+    bind (gen_details_bytes code message conv) (fun details =>
+    Ok (mkStatus code message details md))).
+
+  (* with_error_details_and_metadata: ten times
+     `if let Some(x) = details.f { conv_details.push(x.into_any()); }`, in the order of the source *)
+  Definition push_opt {A} (f : A -> error_detail) (o : option A) (conv : res (list any)) : res (list any) :=
+    bind conv (fun l =>
+      match o with
+      | Some x => bind (into_any (f x)) (fun a => Ok (l ++ [a]))
+      | None => Ok l
+      end).
+  Definition conv_details (ed : error_details) : res (list any) :=
+    push_opt DLocalizedMessage (ed_localized_message ed)
+   (push_opt DHelp (ed_help ed)
+   (push_opt DResourceInfo (ed_resource_info ed)
+   (push_opt DRequestInfo (ed_request_info ed)
+   (push_opt DBadRequest (ed_bad_request ed)
+   (push_opt DPreconditionFailure (ed_precondition_failure ed)
+   (push_opt DErrorInfo (ed_error_info ed)
+   (push_opt DQuotaFailure (ed_quota_failure ed)
+   (push_opt DDebugInfo (ed_debug_info ed)
+   (push_opt DRetryInfo (ed_retry_info ed) (Ok [])))))))))).
+  Definition with_error_details_and_metadata (code : N) (message : str) (ed : error_details) (md : hm)
+    : res status :=
+    bind (conv_details ed) (fun conv =>
+    bind (gen_details_bytes code message conv) (fun details =>
+    Ok (mkStatus code message details md))).
+
+  (* specification only: the details a set stands for, in the order they are pushed *)
   Definition opt_list {A} (f : A -> error_detail) (o : option A) : list error_detail :=
     match o with Some x => [f x] | None => [] end.
-  (* with_error_details_and_metadata: the ten `if let Some(x) = details.f { push(x.into_any()) }` *)
   Definition pushed (ed : error_details) : list error_detail :=
     opt_list DRetryInfo (ed_retry_info ed) ++ opt_list DDebugInfo (ed_debug_info ed) ++
     opt_list DQuotaFailure (ed_quota_failure ed) ++ opt_list DErrorInfo (ed_error_info ed) ++
     opt_list DPreconditionFailure (ed_precondition_failure ed) ++ opt_list DBadRequest (ed_bad_request ed) ++
     opt_list DRequestInfo (ed_request_info ed) ++ opt_list DResourceInfo (ed_resource_info ed) ++
     opt_list DHelp (ed_help ed) ++ opt_list DLocalizedMessage (ed_localized_message ed).
-
-  Definition with_error_details_vec_and_metadata (code : N) (message : str) (ds : list error_detail) (md : hm)
-    : res status :=
-    bind (map_res into_any ds) (fun conv =>
-    bind (gen_details_bytes code message conv) (fun details =>
-    Ok (mkStatus code message details md))).
-  Definition with_error_details_and_metadata (code : N) (message : str) (ed : error_details) (md : hm)
-    : res status :=
-    with_error_details_vec_and_metadata code message (pushed ed) md.
 
   (* RpcStatusExt for pb::Status *)
   Definition set_detail (ed : error_details) (d : error_detail) : error_details :=
@@ -275,195 +368,190 @@ Definition std_of_pb (p : pb_duration) : res duration :=
     if ((pd_seconds q <? 0) || (pd_nanos q <? 0))%Z then Ok (mkDur 0 0)
     else duration_new (Z.to_N (pd_seconds q)) (Z.to_N (pd_nanos q))).
 
-Definition enc_duration (p : pb_duration) : list field :=
-  enc_int tag_Duration_seconds (pd_seconds p) ++ enc_int tag_Duration_nanos (pd_nanos p).
-Definition merge_duration (p : pb_duration) (f : field) : res pb_duration :=
-  let (t, v) := f in
-  if t =? tag_Duration_seconds then bind (as_varint v) (fun n => Ok (mkPbDur (to_i64 n) (pd_nanos p)))
-  else if t =? tag_Duration_nanos then bind (as_varint v) (fun n => Ok (mkPbDur (pd_seconds p) (to_i32 n)))
-  else Ok p.
-
-(* ---- RetryInfo ---- *)
-Definition enc_retry_info (x : retry_info) : res (list field) :=
-  match ri_retry_delay x with
-  | Some d => bind (pb_retry_delay d) (fun p => Ok [enc_msg tag_RetryInfo_retry_delay (enc_duration p)])
-  | None => Ok []
+(* ---- the message tables --------------------------------------------------------------------- *)
+(* Gen/RichErrorTables.v lists, for every prost message, (field name, tag, kind) as written in the
+   `#[prost(..)]` attributes.  [schema_of] turns such a table into the table of Model/ProtoWire.v:
+   the type names of message-typed fields are resolved, and the fields are put in tag order as
+   prost-derive does.  The wire codec of all ten detail messages, of google.rpc.Status, Any and
+   Duration is [enc_g] / [dec_g] of ITS table - nothing about tags, kinds or field order is written
+   by hand below; the hand-written part is which Rust field goes into which prost field (by name). *)
+Local Open Scope string_scope.
+Definition skind_of (k : pkind) : option skind :=
+  match k with
+  | P_int32 => Some SInt32 | P_int64 => Some SInt64 | P_string => Some SString | P_bytes => Some SBytes
+  | _ => None
   end.
-(* optional message field: `self.retry_delay.get_or_insert_with(Default::default)` then merge *)
-Definition merge_pb_retry_info (st : option pb_duration) (f : field) : res (option pb_duration) :=
-  let (t, v) := f in
-  if t =? tag_RetryInfo_retry_delay then
-    bind (as_message RECURSION_LIMIT v) (fun fs =>
-    bind (fold_res merge_duration fs (match st with Some p => p | None => mkPbDur 0 0 end)) (fun p =>
-    Ok (Some p)))
-  else Ok st.
-Definition dec_retry_info (fs : list field) : res retry_info :=
-  bind (fold_res merge_pb_retry_info fs None) (fun o =>
-    match o with
-    | Some p => bind (std_of_pb p) (fun d => Ok (mkRetryInfo (Some d)))
-    | None => Ok (mkRetryInfo None)
-    end).
-
-(* ---- DebugInfo ---- *)
-Definition enc_debug_info (x : debug_info) : list field :=
-  enc_rep_str tag_DebugInfo_stack_entries (di_stack_entries x) ++ enc_str tag_DebugInfo_detail (di_detail x).
-Definition merge_debug_info (st : debug_info) (f : field) : res debug_info :=
-  let (t, v) := f in
-  if t =? tag_DebugInfo_stack_entries then
-    bind (as_string v) (fun s => Ok (mkDebugInfo (di_stack_entries st ++ [s]) (di_detail st)))
-  else if t =? tag_DebugInfo_detail then
-    bind (as_string v) (fun s => Ok (mkDebugInfo (di_stack_entries st) s))
-  else Ok st.
-Definition dec_debug_info (fs : list field) : res debug_info :=
-  fold_res merge_debug_info fs (mkDebugInfo [] []).
-
-(* ---- messages that are a repeated list of string tuples ---- *)
-Definition s0 (l : list str) : str := nth 0 l [].
-Definition s1 (l : list str) : str := nth 1 l [].
-Definition s2 (l : list str) : str := nth 2 l [].
-Definition s3 (l : list str) : str := nth 3 l [].
-
-Definition QV_TAGS : list N := [tag_quota_failure_Violation_subject; tag_quota_failure_Violation_description].
-Definition qv_strs (v : quota_violation) : list str := [qv_subject v; qv_description v].
-Definition qv_of (l : list str) : quota_violation := mkQuotaViolation (s0 l) (s1 l).
-Definition enc_quota_failure (x : quota_failure) : list field :=
-  enc_rep_strs tag_QuotaFailure_violations QV_TAGS (map qv_strs (qf_violations x)).
-Definition dec_quota_failure (fs : list field) : res quota_failure :=
-  bind (dec_rep_strs tag_QuotaFailure_violations QV_TAGS fs) (fun l => Ok (mkQuotaFailure (map qv_of l))).
-
-Definition PV_TAGS : list N :=
-  [tag_precondition_failure_Violation_type; tag_precondition_failure_Violation_subject;
-   tag_precondition_failure_Violation_description].
-Definition pv_strs (v : precondition_violation) : list str := [pv_type v; pv_subject v; pv_description v].
-Definition pv_of (l : list str) : precondition_violation := mkPreconditionViolation (s0 l) (s1 l) (s2 l).
-Definition enc_precondition_failure (x : precondition_failure) : list field :=
-  enc_rep_strs tag_PreconditionFailure_violations PV_TAGS (map pv_strs (pf_violations x)).
-Definition dec_precondition_failure (fs : list field) : res precondition_failure :=
-  bind (dec_rep_strs tag_PreconditionFailure_violations PV_TAGS fs) (fun l => Ok (mkPreconditionFailure (map pv_of l))).
-
-Definition FV_TAGS : list N := [tag_bad_request_FieldViolation_field; tag_bad_request_FieldViolation_description].
-Definition fv_strs (v : field_violation) : list str := [fv_field v; fv_description v].
-Definition fv_of (l : list str) : field_violation := mkFieldViolation (s0 l) (s1 l).
-Definition enc_bad_request (x : bad_request) : list field :=
-  enc_rep_strs tag_BadRequest_field_violations FV_TAGS (map fv_strs (br_field_violations x)).
-Definition dec_bad_request (fs : list field) : res bad_request :=
-  bind (dec_rep_strs tag_BadRequest_field_violations FV_TAGS fs) (fun l => Ok (mkBadRequest (map fv_of l))).
-
-Definition HL_TAGS : list N := [tag_help_Link_description; tag_help_Link_url].
-Definition hl_strs (v : help_link) : list str := [hl_description v; hl_url v].
-Definition hl_of (l : list str) : help_link := mkHelpLink (s0 l) (s1 l).
-Definition enc_help (x : help) : list field :=
-  enc_rep_strs tag_Help_links HL_TAGS (map hl_strs (h_links x)).
-Definition dec_help (fs : list field) : res help :=
-  bind (dec_rep_strs tag_Help_links HL_TAGS fs) (fun l => Ok (mkHelp (map hl_of l))).
-
-(* ---- messages that are one string tuple ---- *)
-Definition RQ_TAGS : list N := [tag_RequestInfo_request_id; tag_RequestInfo_serving_data].
-Definition enc_request_info (x : request_info) : list field :=
-  enc_strs RQ_TAGS [rq_request_id x; rq_serving_data x].
-Definition dec_request_info (fs : list field) : res request_info :=
-  bind (dec_strs RQ_TAGS fs) (fun l => Ok (mkRequestInfo (s0 l) (s1 l))).
-
-Definition RS_TAGS : list N :=
-  [tag_ResourceInfo_resource_type; tag_ResourceInfo_resource_name; tag_ResourceInfo_owner;
-   tag_ResourceInfo_description].
-Definition enc_resource_info (x : resource_info) : list field :=
-  enc_strs RS_TAGS [rs_resource_type x; rs_resource_name x; rs_owner x; rs_description x].
-Definition dec_resource_info (fs : list field) : res resource_info :=
-  bind (dec_strs RS_TAGS fs) (fun l => Ok (mkResourceInfo (s0 l) (s1 l) (s2 l) (s3 l))).
-
-Definition LM_TAGS : list N := [tag_LocalizedMessage_locale; tag_LocalizedMessage_message].
-Definition enc_localized_message (x : localized_message) : list field :=
-  enc_strs LM_TAGS [lm_locale x; lm_message x].
-Definition dec_localized_message (fs : list field) : res localized_message :=
-  bind (dec_strs LM_TAGS fs) (fun l => Ok (mkLocalizedMessage (s0 l) (s1 l))).
-
-(* ---- ErrorInfo: two strings and a map<string,string> ---- *)
-(* a map entry is the message { key = 1; value = 2 } (prost encoding.rs, `map!`) *)
-Definition ENTRY_TAGS : list N := [1; 2].
-(* HashMap::insert *)
-Fixpoint map_insert (m : list (str * str)) (k v : str) : list (str * str) :=
-  match m with
-  | [] => [(k, v)]
-  | (k', v') :: r => if bytes_eqb k' k then (k, v) :: r else (k', v') :: map_insert r k v
+Definition flat_of (t : list (string * N * pkind)) : flat :=
+  sort_by_tag (flat_map (fun e => match skind_of (snd e) with Some k => [(fst e, k)] | None => [] end) t).
+(* the message types that occur as field types *)
+Definition resolve (ty : string) : list (string * N * pkind) :=
+  if String.eqb ty "prost_types::Any" then fields_Any
+  else if String.eqb ty "prost_types::Duration" then fields_Duration
+  else if String.eqb ty "quota_failure::Violation" then fields_quota_failure_Violation
+  else if String.eqb ty "precondition_failure::Violation" then fields_precondition_failure_Violation
+  else if String.eqb ty "bad_request::FieldViolation" then fields_bad_request_FieldViolation
+  else if String.eqb ty "help::Link" then fields_help_Link
+  else [].
+Definition fkind_of (k : pkind) : fkind :=
+  match k with
+  | P_int32 => FScalar SInt32 | P_int64 => FScalar SInt64 | P_string => FScalar SString | P_bytes => FScalar SBytes
+  | P_string_rep => FStringRep
+  | P_msg_opt ty => FMsgOpt (flat_of (resolve ty))
+  | P_msg_rep ty => FMsgRep (flat_of (resolve ty))
+  | P_map_string_string => FMapSS
   end.
-Definition enc_error_info (x : error_info) : list field :=
-  enc_str tag_ErrorInfo_reason (ei_reason x) ++ enc_str tag_ErrorInfo_domain (ei_domain x) ++
-  map (fun kv => enc_msg tag_ErrorInfo_metadata (enc_strs ENTRY_TAGS [fst kv; snd kv])) (ei_metadata x).
-Definition merge_error_info (st : error_info) (f : field) : res error_info :=
-  let (t, v) := f in
-  if t =? tag_ErrorInfo_reason then
-    bind (as_string v) (fun s => Ok (mkErrorInfo s (ei_domain st) (ei_metadata st)))
-  else if t =? tag_ErrorInfo_domain then
-    bind (as_string v) (fun s => Ok (mkErrorInfo (ei_reason st) s (ei_metadata st)))
-  else if t =? tag_ErrorInfo_metadata then
-    bind (as_message RECURSION_LIMIT v) (fun fs =>
-    bind (dec_strs ENTRY_TAGS fs) (fun kv =>
-    Ok (mkErrorInfo (ei_reason st) (ei_domain st) (map_insert (ei_metadata st) (s0 kv) (s1 kv)))))
-  else Ok st.
-Definition dec_error_info (fs : list field) : res error_info :=
-  fold_res merge_error_info fs (mkErrorInfo [] [] []).
+Definition schema_of (t : list (string * N * pkind)) : schema :=
+  sort_by_tag (map (fun e => (fst e, fkind_of (snd e))) t).
+(* a nested message type is known and all of its fields are scalars (so [flat_of] drops nothing) *)
+Definition nested_ok (t : list (string * N * pkind)) : bool :=
+  forallb (fun e => match snd e with
+                    | P_msg_opt ty | P_msg_rep ty =>
+                        negb (Nat.eqb (List.length (resolve ty)) 0) &&
+                        forallb (fun e' => match skind_of (snd e') with Some _ => true | None => false end) (resolve ty)
+                    | _ => true
+                    end) t.
+
+Definition S_Status : schema := Eval vm_compute in schema_of fields_Status.
+Definition S_RetryInfo : schema := Eval vm_compute in schema_of fields_RetryInfo.
+Definition S_DebugInfo : schema := Eval vm_compute in schema_of fields_DebugInfo.
+Definition S_QuotaFailure : schema := Eval vm_compute in schema_of fields_QuotaFailure.
+Definition S_ErrorInfo : schema := Eval vm_compute in schema_of fields_ErrorInfo.
+Definition S_PreconditionFailure : schema := Eval vm_compute in schema_of fields_PreconditionFailure.
+Definition S_BadRequest : schema := Eval vm_compute in schema_of fields_BadRequest.
+Definition S_RequestInfo : schema := Eval vm_compute in schema_of fields_RequestInfo.
+Definition S_ResourceInfo : schema := Eval vm_compute in schema_of fields_ResourceInfo.
+Definition S_Help : schema := Eval vm_compute in schema_of fields_Help.
+Definition S_LocalizedMessage : schema := Eval vm_compute in schema_of fields_LocalizedMessage.
+Definition F_Any : flat := Eval vm_compute in flat_of fields_Any.
+Definition F_Duration : flat := Eval vm_compute in flat_of fields_Duration.
+Definition F_QuotaViolation : flat := Eval vm_compute in flat_of fields_quota_failure_Violation.
+Definition F_PreconditionViolation : flat := Eval vm_compute in flat_of fields_precondition_failure_Violation.
+Definition F_FieldViolation : flat := Eval vm_compute in flat_of fields_bad_request_FieldViolation.
+Definition F_HelpLink : flat := Eval vm_compute in flat_of fields_help_Link.
+
+Definition S_of (k : kind) : schema :=
+  match k with
+  | KRetryInfo => S_RetryInfo | KDebugInfo => S_DebugInfo | KQuotaFailure => S_QuotaFailure
+  | KErrorInfo => S_ErrorInfo | KPreconditionFailure => S_PreconditionFailure | KBadRequest => S_BadRequest
+  | KRequestInfo => S_RequestInfo | KResourceInfo => S_ResourceInfo | KHelp => S_Help
+  | KLocalizedMessage => S_LocalizedMessage
+  end.
+
+(* ---- Rust struct <-> prost message, field by field (the `From` impls of std_messages/*.rs) ---- *)
+(* total accessors of a generic value *)
+Definition sv_of (v : val) : sval := match v with VS x => x | _ => VBs [] end.
+Definition strs_of (v : val) : list (list N) := match v with VStrs l => l | _ => [] end.
+Definition opt_of (v : val) : option (list sval) := match v with VOpt o => o | _ => None end.
+Definition rep_of (v : val) : list (list sval) := match v with VRep l => l | _ => [] end.
+Definition map_of (v : val) : list (str * str) := match v with VMap m => m | _ => [] end.
+Definition vstr (s : str) : val := VS (VBs s).
+(* the string field [n] of a top-level / of a flat message *)
+Definition str_field (s : schema) (vs : list val) (n : string) : str := bs_of (sv_of (by_name s vs n (vstr []))).
+Definition col (f : flat) (x : list sval) (n : string) : str := bs_of (by_name f x n (VBs [])).
+Definition row (f : flat) (named : list (string * str)) : list sval :=
+  arrange f dflt_s (map (fun p => (fst p, VBs (snd p))) named).
+
+Definition g_of_qv (v : quota_violation) : list sval :=
+  row F_QuotaViolation [("subject", qv_subject v); ("description", qv_description v)].
+Definition qv_of_g (x : list sval) : quota_violation :=
+  mkQuotaViolation (col F_QuotaViolation x "subject") (col F_QuotaViolation x "description").
+Definition g_of_pv (v : precondition_violation) : list sval :=
+  row F_PreconditionViolation [("type", pv_type v); ("subject", pv_subject v); ("description", pv_description v)].
+Definition pv_of_g (x : list sval) : precondition_violation :=
+  mkPreconditionViolation (col F_PreconditionViolation x "type") (col F_PreconditionViolation x "subject")
+                          (col F_PreconditionViolation x "description").
+Definition g_of_fv (v : field_violation) : list sval :=
+  row F_FieldViolation [("field", fv_field v); ("description", fv_description v)].
+Definition fv_of_g (x : list sval) : field_violation :=
+  mkFieldViolation (col F_FieldViolation x "field") (col F_FieldViolation x "description").
+Definition g_of_hl (v : help_link) : list sval :=
+  row F_HelpLink [("description", hl_description v); ("url", hl_url v)].
+Definition hl_of_g (x : list sval) : help_link :=
+  mkHelpLink (col F_HelpLink x "description") (col F_HelpLink x "url").
+Definition g_of_dur (p : pb_duration) : list sval :=
+  arrange F_Duration dflt_s [("seconds", VInt (pd_seconds p)); ("nanos", VInt (pd_nanos p))].
+Definition dur_of_g (x : list sval) : pb_duration :=
+  mkPbDur (int_of (by_name F_Duration x "seconds" (VInt 0))) (int_of (by_name F_Duration x "nanos" (VInt 0))).
+
+(* IntoAny: `pb::X::from(x)`; only RetryInfo's conversion can fail (panic sites of normalize) *)
+Definition g_of_detail (d : error_detail) : res (list val) :=
+  match d with
+  | DRetryInfo x =>
+      match ri_retry_delay x with
+      | Some dl => bind (pb_retry_delay dl) (fun p =>
+                     Ok (arrange S_RetryInfo dflt_f [("retry_delay", VOpt (Some (g_of_dur p)))]))
+      | None => Ok (arrange S_RetryInfo dflt_f [("retry_delay", VOpt None)])
+      end
+  | DDebugInfo x =>
+      Ok (arrange S_DebugInfo dflt_f [("stack_entries", VStrs (di_stack_entries x)); ("detail", vstr (di_detail x))])
+  | DQuotaFailure x => Ok (arrange S_QuotaFailure dflt_f [("violations", VRep (map g_of_qv (qf_violations x)))])
+  | DErrorInfo x =>
+      Ok (arrange S_ErrorInfo dflt_f [("reason", vstr (ei_reason x)); ("domain", vstr (ei_domain x));
+                                      ("metadata", VMap (ei_metadata x))])
+  | DPreconditionFailure x =>
+      Ok (arrange S_PreconditionFailure dflt_f [("violations", VRep (map g_of_pv (pf_violations x)))])
+  | DBadRequest x => Ok (arrange S_BadRequest dflt_f [("field_violations", VRep (map g_of_fv (br_field_violations x)))])
+  | DRequestInfo x =>
+      Ok (arrange S_RequestInfo dflt_f [("request_id", vstr (rq_request_id x)); ("serving_data", vstr (rq_serving_data x))])
+  | DResourceInfo x =>
+      Ok (arrange S_ResourceInfo dflt_f [("resource_type", vstr (rs_resource_type x)); ("resource_name", vstr (rs_resource_name x));
+                                         ("owner", vstr (rs_owner x)); ("description", vstr (rs_description x))])
+  | DHelp x => Ok (arrange S_Help dflt_f [("links", VRep (map g_of_hl (h_links x)))])
+  | DLocalizedMessage x =>
+      Ok (arrange S_LocalizedMessage dflt_f [("locale", vstr (lm_locale x)); ("message", vstr (lm_message x))])
+  end.
+
+(* FromAnyRef: `pb::X::decode(..)?.into()` - the `.into()` half *)
+Definition detail_of_g (k : kind) (vs : list val) : res error_detail :=
+  match k with
+  | KRetryInfo =>
+      match opt_of (by_name S_RetryInfo vs "retry_delay" (VOpt None)) with
+      | Some x => bind (std_of_pb (dur_of_g x)) (fun d => Ok (DRetryInfo (mkRetryInfo (Some d))))
+      | None => Ok (DRetryInfo (mkRetryInfo None))
+      end
+  | KDebugInfo =>
+      Ok (DDebugInfo (mkDebugInfo (strs_of (by_name S_DebugInfo vs "stack_entries" (VStrs [])))
+                                  (str_field S_DebugInfo vs "detail")))
+  | KQuotaFailure =>
+      Ok (DQuotaFailure (mkQuotaFailure (map qv_of_g (rep_of (by_name S_QuotaFailure vs "violations" (VRep []))))))
+  | KErrorInfo =>
+      Ok (DErrorInfo (mkErrorInfo (str_field S_ErrorInfo vs "reason") (str_field S_ErrorInfo vs "domain")
+                                  (map_of (by_name S_ErrorInfo vs "metadata" (VMap [])))))
+  | KPreconditionFailure =>
+      Ok (DPreconditionFailure
+            (mkPreconditionFailure (map pv_of_g (rep_of (by_name S_PreconditionFailure vs "violations" (VRep []))))))
+  | KBadRequest =>
+      Ok (DBadRequest (mkBadRequest (map fv_of_g (rep_of (by_name S_BadRequest vs "field_violations" (VRep []))))))
+  | KRequestInfo =>
+      Ok (DRequestInfo (mkRequestInfo (str_field S_RequestInfo vs "request_id") (str_field S_RequestInfo vs "serving_data")))
+  | KResourceInfo =>
+      Ok (DResourceInfo (mkResourceInfo (str_field S_ResourceInfo vs "resource_type") (str_field S_ResourceInfo vs "resource_name")
+                                        (str_field S_ResourceInfo vs "owner") (str_field S_ResourceInfo vs "description")))
+  | KHelp => Ok (DHelp (mkHelp (map hl_of_g (rep_of (by_name S_Help vs "links" (VRep []))))))
+  | KLocalizedMessage =>
+      Ok (DLocalizedMessage (mkLocalizedMessage (str_field S_LocalizedMessage vs "locale")
+                                                (str_field S_LocalizedMessage vs "message")))
+  end.
 
 (* ---- the payload of an Any, by kind ---- *)
-Definition enc_detail_fields (d : error_detail) : res (list field) :=
-  match d with
-  | DRetryInfo x => enc_retry_info x
-  | DDebugInfo x => Ok (enc_debug_info x)
-  | DQuotaFailure x => Ok (enc_quota_failure x)
-  | DErrorInfo x => Ok (enc_error_info x)
-  | DPreconditionFailure x => Ok (enc_precondition_failure x)
-  | DBadRequest x => Ok (enc_bad_request x)
-  | DRequestInfo x => Ok (enc_request_info x)
-  | DResourceInfo x => Ok (enc_resource_info x)
-  | DHelp x => Ok (enc_help x)
-  | DLocalizedMessage x => Ok (enc_localized_message x)
-  end.
 Definition enc_detail_c (d : error_detail) : res (list N) :=
-  bind (enc_detail_fields d) (fun fs => Ok (ser fs)).
-
-Definition lenient_of (k : kind) : list N :=
-  match k with KErrorInfo => [tag_ErrorInfo_metadata] | _ => [] end.
-Definition dec_detail_fields (k : kind) (fs : list field) : res error_detail :=
-  match k with
-  | KRetryInfo => bind (dec_retry_info fs) (fun x => Ok (DRetryInfo x))
-  | KDebugInfo => bind (dec_debug_info fs) (fun x => Ok (DDebugInfo x))
-  | KQuotaFailure => bind (dec_quota_failure fs) (fun x => Ok (DQuotaFailure x))
-  | KErrorInfo => bind (dec_error_info fs) (fun x => Ok (DErrorInfo x))
-  | KPreconditionFailure => bind (dec_precondition_failure fs) (fun x => Ok (DPreconditionFailure x))
-  | KBadRequest => bind (dec_bad_request fs) (fun x => Ok (DBadRequest x))
-  | KRequestInfo => bind (dec_request_info fs) (fun x => Ok (DRequestInfo x))
-  | KResourceInfo => bind (dec_resource_info fs) (fun x => Ok (DResourceInfo x))
-  | KHelp => bind (dec_help fs) (fun x => Ok (DHelp x))
-  | KLocalizedMessage => bind (dec_localized_message fs) (fun x => Ok (DLocalizedMessage x))
-  end.
+  bind (g_of_detail d) (fun vs => Ok (enc_g (S_of (kind_of d)) vs)).
 Definition dec_detail_c (k : kind) (b : list N) : res error_detail :=
-  bind (parse RECURSION_LIMIT (lenient_of k) b) (dec_detail_fields k).
+  bind (dec_g (S_of k) b) (detail_of_g k).
 
 (* ---- google.rpc.Status and Any ---- *)
-Definition enc_any (a : any) : list field :=
-  enc_str tag_Any_type_url (fst a) ++ enc_str tag_Any_value (snd a).
-Definition merge_any (a : any) (f : field) : res any :=
-  let (t, v) := f in
-  if t =? tag_Any_type_url then bind (as_string v) (fun s => Ok (s, snd a))
-  else if t =? tag_Any_value then bind (as_bytes v) (fun b => Ok (fst a, b))
-  else Ok a.
-Definition enc_status_fields (ps : pb_status) : list field :=
-  enc_int tag_Status_code (ps_code ps) ++ enc_str tag_Status_message (ps_message ps) ++
-  map (fun a => enc_msg tag_Status_details (enc_any a)) (ps_details ps).
-Definition enc_status_c (ps : pb_status) : list N := ser (enc_status_fields ps).
-Definition merge_status (ps : pb_status) (f : field) : res pb_status :=
-  let (t, v) := f in
-  if t =? tag_Status_code then
-    bind (as_varint v) (fun n => Ok (mkPbStatus (to_i32 n) (ps_message ps) (ps_details ps)))
-  else if t =? tag_Status_message then
-    bind (as_string v) (fun s => Ok (mkPbStatus (ps_code ps) s (ps_details ps)))
-  else if t =? tag_Status_details then
-    bind (as_message RECURSION_LIMIT v) (fun fs =>
-    bind (fold_res merge_any fs ([], [])) (fun a =>
-    Ok (mkPbStatus (ps_code ps) (ps_message ps) (ps_details ps ++ [a]))))
-  else Ok ps.
+Definition g_of_any (a : any) : list sval := arrange F_Any dflt_s [("type_url", VBs (fst a)); ("value", VBs (snd a))].
+Definition any_of_g (x : list sval) : any := (col F_Any x "type_url", col F_Any x "value").
+Definition g_of_status (ps : pb_status) : list val :=
+  arrange S_Status dflt_f [("code", VS (VInt (ps_code ps))); ("message", vstr (ps_message ps));
+                           ("details", VRep (map g_of_any (ps_details ps)))].
+Definition status_of_g (vs : list val) : pb_status :=
+  mkPbStatus (int_of (sv_of (by_name S_Status vs "code" (VS (VInt 0))))) (str_field S_Status vs "message")
+             (map any_of_g (rep_of (by_name S_Status vs "details" (VRep [])))).
+Definition enc_status_c (ps : pb_status) : list N := enc_g S_Status (g_of_status ps).
 Definition dec_status_c (b : list N) : res pb_status :=
-  bind (parse RECURSION_LIMIT [] b) (fun fs => fold_res merge_status fs (mkPbStatus 0 [] [])).
+  bind (dec_g S_Status b) (fun vs => Ok (status_of_g vs)).
+Local Close Scope string_scope.
 
 (* ---- layer A instantiated ---- *)
 Definition into_any_c := into_any enc_detail_c.
@@ -559,9 +647,17 @@ Definition obs_ed (items : list tr) (ed : error_details) : tr :=
       oopt (fun x => R (obs_detail (DHelp x))) (ed_help ed);
       oopt (fun x => R (obs_detail (DLocalizedMessage x))) (ed_localized_message ed)].
 
-(* the embedded google.rpc.Status: code (as u32), message, number of details *)
+(* the embedded google.rpc.Status: code (as u32), message, the type URL of every detail (a
+   standard URL is shown as the number of its kind) *)
+Definition kind_index (k : kind) : N :=
+  match k with
+  | KRetryInfo => 0 | KDebugInfo => 1 | KQuotaFailure => 2 | KErrorInfo => 3 | KPreconditionFailure => 4
+  | KBadRequest => 5 | KRequestInfo => 6 | KResourceInfo => 7 | KHelp => 8 | KLocalizedMessage => 9
+  end.
+Definition obs_url (u : str) : tr :=
+  match kind_of_url u with Some k => Nn (kind_index k) | None => obs_bytes u end.
 Definition obs_embedded (ps : pb_status) : tr :=
-  Nd [Nn (Z.to_N (ps_code ps mod Z.of_N U32)); obs_bytes (ps_message ps); Nn (nlen (ps_details ps))].
+  Nd [Nn (Z.to_N (ps_code ps mod Z.of_N U32)); obs_bytes (ps_message ps); olist obs_url (map fst (ps_details ps))].
 
 (* everything the decode side of StatusExt says about a status: check_error_details_vec,
    get_error_details_vec, check_error_details, get_error_details, the ten get_details_*, and
@@ -612,6 +708,10 @@ Definition obs_set (code : N) (message : str) (ed : error_details) (md : hm) : t
   obs_via_headers (with_error_details_c code message ed md).
 Definition obs_vec (code : N) (message : str) (ds : list error_detail) (md : hm) : tr :=
   obs_via_headers (with_error_details_vec_c code message ds md).
+(* an ErrorDetails built step by step through its public methods, then attached as a set *)
+Definition obs_built (code : N) (message : str) (ops : list bop) (md : hm) : tr :=
+  let ed := ed_build ops in
+  Nd [olist obool (ed_has ed); obs_via_headers (with_error_details_c code message ed md)].
 (* arbitrary bytes as details *)
 Definition obs_hostile (code : N) (message : str) (details : list N) : tr :=
   obs_via_headers (Ok (mkStatus code message details [])).
